@@ -123,8 +123,19 @@ def materialise(node, root):
                     inner.doc["x"] = -lay.counter
                     iws = os.path.join(jrel, "workspace")
                     lay.dirs.append((iws, "workspace"))
-                    lay.jobs.append((os.path.join(iws, inner.id), jrel, inner.id, False))
-                    lay.dirs.append((os.path.join(iws, inner.id), "job"))
+                    irel = os.path.join(iws, inner.id)
+                    lay.jobs.append((irel, jrel, inner.id, False))
+                    lay.dirs.append((irel, "job"))
+                    # ... and one level further down: a project in that job directory, again with a job
+                    lay.projects.append(irel)
+                    lay.jobprojs.add(irel)
+                    np3 = signac.init_project(os.path.join(root, irel))
+                    np3.doc["name"] = irel
+                    inner3 = np3.open_job({"n": lay.counter, "level": 3}).init()
+                    iws3 = os.path.join(irel, "workspace")
+                    lay.dirs.append((iws3, "workspace"))
+                    lay.jobs.append((os.path.join(iws3, inner3.id), irel, inner3.id, False))
+                    lay.dirs.append((os.path.join(iws3, inner3.id), "job"))
                     continue
                 for i, c in enumerate(j[1]):
                     build(c, os.path.join(jrel, f"j{i}"))
